@@ -676,7 +676,8 @@ Proof.
   - destruct (forallb _ _); [apply (Hmk _ H)|discriminate].
   - destruct (negb (validate_counts (first :: rest) (length cols0))); [discriminate|].
     destruct (existsb _ rest); [discriminate|].
-    destruct (negb (validate_parsable _)); [discriminate|]. apply (Hmk _ H).
+    destruct (negb (validate_parsable _)); [discriminate|].
+    destruct (negb (validate_trait_names _ _)); [discriminate|]. apply (Hmk _ H).
 Qed.
 
 Section Behaviour.
@@ -754,7 +755,8 @@ Section Behaviour.
 
   (* ---- Parse *)
   Definition trait_consts (g : gvalue) : list dyn :=
-    dyn_dedup (flat_map (fun c => if col_parsable c then owned_cells c g else []) (t_cols t)).
+    dyn_dedup_from [DStr (g_name g)]
+      (flat_map (fun c => if col_parsable c then owned_cells c g else []) (t_cols t)).
   (* x is one of the parsable trait constants listed in the Parse switch *)
   Definition is_trait_const (x : dyn) : Prop := exists g, In g L /\ In x (trait_consts g).
 
@@ -1080,10 +1082,10 @@ Section Codecs.
   Proof. intros v. unfold encode_yaml. apply (sem_string_spec d o t Hwf Hgen). Qed.
 
   (* round trips: the library view of an encoded value is the emitted name (view soundness) *)
-  Lemma roundtrip_json : forall v jv, In v (values_spec cs) ->
+  Lemma roundtrip_json : forall v jv, In v (values_spec cs) -> jv_null jv = false ->
     jv_string jv = Some (sem_string t v) -> decode_json t jv = Some v.
   Proof.
-    intros v jv Hv Hs. unfold decode_json, json_attempts, json_attempts_gen. rewrite Hs. simpl.
+    intros v jv Hv Hnn Hs. unfold decode_json, json_attempts, json_attempts_gen. rewrite Hnn, Hs. simpl.
     rewrite (parse_primary v Hv). reflexivity.
   Qed.
   Lemma roundtrip_text : forall v tv, In v (values_spec cs) ->
@@ -1130,7 +1132,8 @@ Section Codecs.
 
   Lemma reject_json : forall jv, (forall x, In x (json_attempts t jv) -> rejectable x) -> decode_json t jv = None.
   Proof.
-    intros jv H. unfold decode_json. apply try_all_none. intros x Hx. destruct (H x Hx). apply parse_reject_dyn; assumption.
+    intros jv H. unfold decode_json. destruct (jv_null jv); [reflexivity|].
+    apply try_all_none. intros x Hx. destruct (H x Hx). apply parse_reject_dyn; assumption.
   Qed.
   Lemma reject_text : forall tv, (forall x, In x (text_attempts t tv) -> rejectable x) -> decode_text t tv = None.
   Proof.
@@ -1369,7 +1372,8 @@ Proof.
   - destruct (forallb _ _); [apply (Hmk _ _ H Hnil)|discriminate].
   - destruct (negb (validate_counts (first :: rest) (length cols0))); [discriminate|].
     destruct (existsb _ rest); [discriminate|].
-    destruct (negb (validate_parsable _)); [discriminate|]. apply (Hmk _ _ H).
+    destruct (negb (validate_parsable _)); [discriminate|].
+    destruct (negb (validate_trait_names _ _)); [discriminate|]. apply (Hmk _ _ H).
     apply sort_columns_owned. apply drop_dup_owned. apply add_rows_owned.
     + intros v Hv. right. assumption.
     + eapply first_columns_owned; [|exact Ef]. left. reflexivity.
@@ -1436,9 +1440,15 @@ Section Traits.
     intros c r Hc Hp Hr. unfold sem_parse. rewrite (B_all d o t Hgen). fold cs. fold L.
     set (x := cl_val (r_cell r)).
     assert (Hown : In x (case_consts (t_cols t) (r_owner r))).
-    { unfold case_consts. right. apply dyn_dedup_In. apply in_flat_map. exists c. split; [assumption|]. rewrite Hp.
-      unfold owned_cells. apply in_map_iff. exists r. split; [reflexivity|].
-      apply filter_In. split; [assumption|apply String.eqb_refl]. }
+    { unfold case_consts.
+      destruct (dyn_eqb x (DStr (g_name (r_owner r)))) eqn:Ex.
+      - apply dyn_eqb_eq in Ex. left. symmetry. exact Ex.
+      - right. apply dyn_dedup_from_In. split.
+        + apply in_flat_map. exists c. split; [assumption|]. rewrite Hp.
+          unfold owned_cells. apply in_map_iff. exists r. split; [reflexivity|].
+          apply filter_In. split; [assumption|apply String.eqb_refl].
+        + intros [E|[]]. rewrite <- E in Ex.
+          assert (T : dyn_eqb x x = true) by (apply dyn_eqb_eq; reflexivity). congruence. }
     set (f := fun g => existsb (dyn_eqb x) (case_consts (t_cols t) g)).
     assert (Hf0 : f (r_owner r) = true) by (unfold f; apply (existsb_dyn_In x); assumption).
     destruct (find_exists f L _ (rows_owner_in_L c r Hc Hr) Hf0) as [g' F]. rewrite F.
@@ -1537,10 +1547,11 @@ Section Traits.
   (* decoding a document that holds the trait constant of row r (as one of the readings the
      decoder tries) returns the owning value *)
   Lemma decode_trait_json : forall c r jv, In c (t_cols t) -> col_parsable c = true -> In r (col_rows c) ->
+    jv_null jv = false ->
     In (cl_val (r_cell r)) (json_attempts t jv) -> unambiguous (json_attempts t jv) (g_z (r_owner r)) ->
     decode_json t jv = Some (g_z (r_owner r)).
   Proof.
-    intros c r jv Hc Hp Hr Hin Hu. unfold decode_json.
+    intros c r jv Hc Hp Hr Hnn Hin Hu. unfold decode_json. rewrite Hnn.
     eapply try_all_unique; [exact Hin|apply (parse_trait_row c r Hc Hp Hr)|exact Hu].
   Qed.
   Lemma decode_trait_yaml : forall c r yv, In c (t_cols t) -> col_parsable c = true -> In r (col_rows c) ->
@@ -1571,7 +1582,7 @@ Definition nw_defn : defn :=
      d_types := [("uint8", {| ti_bkind := BUint8; ti_json_own := false; ti_yaml_own := false; ti_text_own := false |})] |}.
 Definition nw_opts : opts :=
   {| o_json := true; o_yaml := true; o_text := true; o_ci := false; o_notraits := false; o_parsable := ["Code"] |}.
-Definition nw_json (z : Z) : jview := {| jv_string := None; jv_u64 := Some z; jv_i64 := Some z; jv_native := [] |}.
+Definition nw_json (z : Z) : jview := {| jv_null := false; jv_string := None; jv_u64 := Some z; jv_i64 := Some z; jv_native := [] |}.
 Definition nw_yaml (z : Z) : yview := {| yv_value := dec z; yv_u64 := Some z; yv_i64 := Some z; yv_native := [] |}.
 
 Lemma decode_norc_refuted :
@@ -1580,3 +1591,38 @@ Lemma decode_norc_refuted :
             /\ decode_json t (nw_json 257) = None /\ decode_yaml t (nw_yaml 257) = None
             /\ decode_json t (nw_json 1) = Some 0 /\ decode_yaml t (nw_yaml 2) = Some 1.
 Proof. eexists. split; [vm_compute; reflexivity|]. vm_compute. repeat split. Qed.
+
+(* ---- before fix C05-json-null-rejected: json.Unmarshal of `null` into string / uint64 / int64 succeeds
+   (leaving "" and 0), so the document null decoded to the value whose parsable numeric trait is 0 *)
+Definition null_view : jview :=
+  {| jv_null := true; jv_string := Some ""; jv_u64 := Some 0; jv_i64 := Some 0; jv_native := [] |}.
+Lemma decode_null_refuted :
+  exists t, gen yw_defn yw_opts = Built t
+            /\ decode_json_nullok t null_view = Some 0 /\ decode_json t null_view = None.
+Proof. eexists. split; [vm_compute; reflexivity|]. vm_compute. split; reflexivity. Qed.
+
+Lemma decode_json_null : forall t jv, jv_null jv = true -> decode_json t jv = None.
+Proof. intros t jv H. unfold decode_json. rewrite H. reflexivity. Qed.
+
+(* ---- a parsable plain-string trait that spells the value's own name (fix C12-parsable-trait-equals-name) *)
+Definition on_defn : defn :=
+  {| d_ty := {| ty_name := "E0"; ty_signed := true; ty_bits := 64 |};
+     d_consts := [ {| c_name := "Red"; c_val := 0; c_dep := false;
+                      c_cells := [ {| cl_var := "_Label"; cl_expr := """Red"""; cl_val := DStr "Red" |} ] |};
+                   {| c_name := "Blue"; c_val := 1; c_dep := false;
+                      c_cells := [ {| cl_var := "_"; cl_expr := """blu"""; cl_val := DStr "blu" |} ] |} ];
+     d_types := [("string", {| ti_bkind := BUntypedString; ti_json_own := false; ti_yaml_own := false; ti_text_own := false |})] |}.
+Definition on_clash : defn :=
+  {| d_ty := d_ty on_defn;
+     d_consts := [ {| c_name := "Red"; c_val := 0; c_dep := false;
+                      c_cells := [ {| cl_var := "_Label"; cl_expr := """Blue"""; cl_val := DStr "Blue" |} ] |};
+                   {| c_name := "Blue"; c_val := 1; c_dep := false;
+                      c_cells := [ {| cl_var := "_"; cl_expr := """x"""; cl_val := DStr "x" |} ] |} ];
+     d_types := d_types on_defn |}.
+Definition on_opts : opts :=
+  {| o_json := true; o_yaml := true; o_text := true; o_ci := false; o_notraits := false; o_parsable := ["Label"] |}.
+Lemma own_name_trait :
+  (exists t, gen on_defn on_opts = Built t
+             /\ sem_parse t (DStr "Red") = Some 0 /\ sem_parse t (DStr "blu") = Some 1)
+  /\ gen on_clash on_opts = GenErr.
+Proof. split; [eexists; split; [vm_compute; reflexivity|vm_compute; split; reflexivity]|vm_compute; reflexivity]. Qed.
